@@ -575,6 +575,11 @@ func (sp *subProcess) run(ctx context.Context, out tracing.ITracer, sender traci
 					sp.active.Add(1)
 					defer sp.active.Add(-1)
 
+					// subscribed before the inner start events fire: none of the inner
+					// traces (task requests, errors, the cease-flow trace) is missed
+					traces := sp.subTracer.Subscribe()
+					defer sp.subTracer.Unsubscribe(traces)
+
 					if err := sp.startAll(ctx); err != nil {
 						subProcessId := ""
 						if pid, present := sp.element.Id(); present {
@@ -586,9 +591,6 @@ func (sp *subProcess) run(ctx context.Context, out tracing.ITracer, sender traci
 						}})
 						return
 					}
-
-					traces := sp.subTracer.Subscribe()
-					defer sp.subTracer.Unsubscribe(traces)
 				loop:
 					for {
 						var trace tracing.ITrace
